@@ -29,6 +29,9 @@ pub enum A {
 
 pub struct X {
     stream: bool,
+    /// the stream's item type is one for which the actor relies on the provided `finished`:
+    /// nothing is logged for it, stopped() comes straight after the last handler
+    default_finished: bool,
     /// which start fails (0 = the first, 1 = the start of the first restart)
     start_err: Option<usize>,
 }
@@ -109,7 +112,7 @@ fn oracle(s: &ProgScene<X>, t: &Trace) -> Vec<Violation> {
                 st = if beh == StartBeh::Ok { St::Running } else { St::StartFailed };
             }
             W::In(Cb::Stopped, inc) => {
-                let ok_state = if s.extra.stream { st == St::Finished } else { st == St::Running };
+                let ok_state = if s.extra.stream && !s.extra.default_finished { st == St::Finished } else { st == St::Running };
                 if !ok_state {
                     v("protocol", format!("C03/{kind}/stopped-out-of-place"), format!("stopped() entered in state {st:?}"));
                 }
@@ -200,7 +203,7 @@ fn oracle(s: &ProgScene<X>, t: &Trace) -> Vec<Violation> {
             if st != St::Stopped {
                 v("graceful-end", format!("C03/{kind}/ended-without-stopped"), format!("the actor task ended in state {st:?}"));
             }
-            if s.extra.stream && finished_count != 1 {
+            if s.extra.stream && finished_count != usize::from(!s.extra.default_finished) {
                 v("graceful-end", format!("C03/{kind}/finished-count"), format!("finished() was called {finished_count} times"));
             }
         }
@@ -277,6 +280,7 @@ fn make_case_slow(progs: &[Vec<A>], spawn: SpawnCfg, attach: Attach, start_err: 
     // (the same for stopped(): whatever the handler timeout is, the hook runs to its end)
     role.stopped_sleep = slow_start;
     let stream = attach != Attach::None;
+    let default_finished = matches!(attach, Attach::Stream { via: StreamVia::SpawnOnStreamPlainItems | StreamVia::BuildOnStreamPlainItems, .. });
     let hook_tag = match HOOK_ACTS.with(|h| h.get()) {
         1 => " [ctx.stop() in started()]",
         2 => " [ctx.stop() in stopped()]",
@@ -298,7 +302,7 @@ fn make_case_slow(progs: &[Vec<A>], spawn: SpawnCfg, attach: Attach, start_err: 
         desc,
         exec: ExecCfg { horizon: 3 + slow_start as u64 * 8, ..ExecCfg::default() },
         bound: None,
-        scene: Box::new(ProgScene { variant: crate::progscene::current_variant(), spawn, attach, roles: vec![role], clients, extra: X { stream, start_err }, oracle }),
+        scene: Box::new(ProgScene { variant: crate::progscene::current_variant(), spawn, attach, roles: vec![role], clients, extra: X { stream, default_finished, start_err }, oracle }),
     }
 }
 
@@ -411,7 +415,7 @@ fn base_cases(tier: Tier) -> Vec<Case> {
     }
     // stream-attached actors
     let salpha = [A::Send, A::Call, A::StopAddr, A::CtxStop, A::DropAddr, A::Feed, A::Close];
-    let vias = [StreamVia::SpawnOnStream, StreamVia::BuildOnStream, StreamVia::BoundedOnStream(1), StreamVia::SpawnOwningOnStream];
+    let vias = [StreamVia::SpawnOnStream, StreamVia::BuildOnStream, StreamVia::BoundedOnStream(1), StreamVia::SpawnOwningOnStream, StreamVia::SpawnOnStreamPlainItems, StreamVia::BuildOnStreamPlainItems];
     for via in vias {
         let attaches = [
             Attach::Stream { via, prefill: vec![], close: true },
